@@ -145,7 +145,9 @@ func TestWorker(t *testing.T) {
 				continue
 			}
 			if time.Since(lastChange) > 30*time.Second {
-				if runtime.GOARCH != "amd64" {
+				if pf := os.Getenv("VERIF_PLATFORM"); pf != "" {
+					curCfg.Arch = pf
+				} else if runtime.GOARCH != "amd64" {
 					curCfg.Arch = runtime.GOARCH
 				}
 				res.Hang = &core.HangInfo{Label: label, Config: curCfg, Seed: curSeed}
@@ -237,7 +239,9 @@ func minimise(t *testing.T, sc *scen.Scenario, cfg core.Config, seed, runSeed ui
 			detail = g.Detail
 		}
 	}
-	if runtime.GOARCH != "amd64" {
+	if pf := os.Getenv("VERIF_PLATFORM"); pf != "" {
+		cfg.Arch = pf
+	} else if runtime.GOARCH != "amd64" {
 		cfg.Arch = runtime.GOARCH
 	}
 	return core.ReplayFile{Property: f.Property, Scenario: sc.Name, Config: cfg, Seed: seed, RunSeed: runSeed, Key: f.Key,
